@@ -1,8 +1,50 @@
 import OrsoVerif.Model.TypeName
 import Batteries.Data.Char.AsciiCasing
 /-! Helper lemmas for C06 (`Model/TypeName.lean`). -/
+set_option linter.unusedSimpArgs false
+set_option linter.unnecessarySeqFocus false
+set_option linter.unreachableTactic false
 namespace TypeName
 open Gen.TypeName
+
+/-! ### reference semantics the generated control flow is compared with
+
+`parseTypeCore` / `fromNameCore` are `_parse_type` / `OrsoTypes.from_name` with the control flow written
+out by hand: the name is upper-cased first, the four patterns are tried at the start of the text in the
+order ARRAY, DECIMAL, VARCHAR, BLOB, a bare name is upper-cased again, and VARCHAR[n] / BLOB[n] put `n`
+into the length.  The model (`Model/TypeName.lean`) instead follows what the extractor read from the
+source (`parseOrder`, `anchor*`, `upperInFromName`, `upperBareReturn`, `lengthBranches`,
+`decimalTargets`); `parseType_eq_core` / `fromName_eq_core` below show that, for what the source says
+now, the two coincide on every text.  The lemmas of this file are proved about the reference and moved
+to the model through that equation. -/
+
+def parseTypeCore (s : Str) : Except ExcClass Parsed :=
+  match matchArray s with
+  | some body => .ok (.array body)
+  | none =>
+  match matchDecimal s with
+  | some (p, q) =>
+    match parseInt p with
+    | .error e => .error e
+    | .ok p => match parseInt q with
+      | .error e => .error e
+      | .ok q => .ok (.decimal p q)
+  | none =>
+  match matchBracket litVarchar s with
+  | some n => (parseInt n).map .varchar
+  | none =>
+  match matchBracket litBlob s with
+  | some n => (parseInt n).map .blob
+  | none => .ok (.bare (up s))
+
+def fromNameCore (name : Str) : Res :=
+  match parseTypeCore (up name) with
+  | .error e => .error e
+  | .ok (.bare b) => bareResolve b
+  | .ok (.array body) => arrayResolve body
+  | .ok (.decimal p s) => decimalResolve p s
+  | .ok (.varchar n) => .ok { ty := .member litVarchar, length := some n }
+  | .ok (.blob n) => .ok { ty := .member litBlob, length := some n }
 
 /-! ### upper-casing -/
 
@@ -46,8 +88,9 @@ theorem up_digits (n : Nat) : up (digits n) = digits n := up_of_all_digits (digi
 
 theorem parseInt_digits {n : Nat} (h : digitsFit n = true) : parseInt (digits n) = .ok n := by
   unfold parseInt
-  have : ¬ (intMaxStrDigits ≠ 0 ∧ intMaxStrDigits < (digits n).length) := by
+  have : ¬ (digits n = [] ∨ (intMaxStrDigits ≠ 0 ∧ intMaxStrDigits < (digits n).length)) := by
     simp [digitsFit] at h
+    simp only [digits_ne_nil, false_or]
     omega
   rw [if_neg this]
   simp [digits, Nat.ofDigitChars_ten_toDigits]
@@ -154,8 +197,8 @@ def Total (r : Res) : Prop := (∃ d, r = .ok d ∧ wfOut d = true) ∨ r = .err
 
 /-! ### `_parse_type` raises only `ValueError` -/
 
-theorem parseType_err {s : Str} {e : ExcClass} (h : parseType s = .error e) : e = .valueError := by
-  unfold parseType at h
+theorem parseTypeCore_err {s : Str} {e : ExcClass} (h : parseTypeCore s = .error e) : e = .valueError := by
+  unfold parseTypeCore at h
   split at h
   · cases h
   · split at h
@@ -285,16 +328,16 @@ theorem decimalResolve_total (p s : Nat) : Total (decimalResolve p s) := by
   · exact .inr (decimalResolve_err h)
 
 
-/-! ### `fromName` on the rendered forms -/
+/-! ### `fromNameCore` on the rendered forms -/
 
 theorem up_render_bracket (pre : Str) (hpre : up pre = pre) (n : Nat) :
     up (pre ++ '[' :: (digits n ++ [']'])) = pre ++ '[' :: (digits n ++ [']']) := by
   simp only [up_append, up_cons, up_digits, hpre]
   rfl
 
-theorem fromName_varchar {n : Nat} (h : digitsFit n = true) :
-    fromName (render (.varchar n)) = .ok { ty := .member litVarchar, length := some n } := by
-  unfold fromName
+theorem fromNameCore_varchar {n : Nat} (h : digitsFit n = true) :
+    fromNameCore (render (.varchar n)) = .ok { ty := .member litVarchar, length := some n } := by
+  unfold fromNameCore
   have hu : up (render (.varchar n)) = render (.varchar n) := up_render_bracket litVarchar (by decide) n
   rw [hu]
   have h1 : matchArray (render (.varchar n)) = none := by
@@ -303,11 +346,11 @@ theorem fromName_varchar {n : Nat} (h : digitsFit n = true) :
     simp [matchDecimal, render, litDecimal, litVarchar, dropPrefix?]
   have h3 : matchBracket litVarchar (render (.varchar n)) = some (digits n) :=
     matchBracket_spec litVarchar (digits n) [] (digits_ne_nil n) (digits_isD n)
-  simp [parseType, h1, h2, h3, parseInt_digits h, Except.map]
+  simp [parseTypeCore, h1, h2, h3, parseInt_digits h, Except.map]
 
-theorem fromName_blob {n : Nat} (h : digitsFit n = true) :
-    fromName (render (.blob n)) = .ok { ty := .member litBlob, length := some n } := by
-  unfold fromName
+theorem fromNameCore_blob {n : Nat} (h : digitsFit n = true) :
+    fromNameCore (render (.blob n)) = .ok { ty := .member litBlob, length := some n } := by
+  unfold fromNameCore
   have hu : up (render (.blob n)) = render (.blob n) := up_render_bracket litBlob (by decide) n
   rw [hu]
   have h1 : matchArray (render (.blob n)) = none := by
@@ -318,18 +361,18 @@ theorem fromName_blob {n : Nat} (h : digitsFit n = true) :
     simp [matchBracket, render, litVarchar, litBlob, dropPrefix?]
   have h4 : matchBracket litBlob (render (.blob n)) = some (digits n) :=
     matchBracket_spec litBlob (digits n) [] (digits_ne_nil n) (digits_isD n)
-  simp [parseType, h1, h2, h3, h4, parseInt_digits h, Except.map]
+  simp [parseTypeCore, h1, h2, h3, h4, parseInt_digits h, Except.map]
 
 theorem parseInt_digits_err {n : Nat} (h : digitsFit n = false) : parseInt (digits n) = .error .valueError := by
   unfold parseInt
   have : intMaxStrDigits ≠ 0 ∧ intMaxStrDigits < (digits n).length := by
     simp [digitsFit] at h
     omega
-  rw [if_pos this]
+  rw [if_pos (Or.inr this)]
 
-theorem fromName_varchar_err {n : Nat} (h : digitsFit n = false) :
-    fromName (render (.varchar n)) = .error .valueError := by
-  unfold fromName
+theorem fromNameCore_varchar_err {n : Nat} (h : digitsFit n = false) :
+    fromNameCore (render (.varchar n)) = .error .valueError := by
+  unfold fromNameCore
   have hu : up (render (.varchar n)) = render (.varchar n) := up_render_bracket litVarchar (by decide) n
   rw [hu]
   have h1 : matchArray (render (.varchar n)) = none := by
@@ -338,11 +381,11 @@ theorem fromName_varchar_err {n : Nat} (h : digitsFit n = false) :
     simp [matchDecimal, render, litDecimal, litVarchar, dropPrefix?]
   have h3 : matchBracket litVarchar (render (.varchar n)) = some (digits n) :=
     matchBracket_spec litVarchar (digits n) [] (digits_ne_nil n) (digits_isD n)
-  simp [parseType, h1, h2, h3, parseInt_digits_err h, Except.map]
+  simp [parseTypeCore, h1, h2, h3, parseInt_digits_err h, Except.map]
 
-theorem fromName_blob_err {n : Nat} (h : digitsFit n = false) :
-    fromName (render (.blob n)) = .error .valueError := by
-  unfold fromName
+theorem fromNameCore_blob_err {n : Nat} (h : digitsFit n = false) :
+    fromNameCore (render (.blob n)) = .error .valueError := by
+  unfold fromNameCore
   have hu : up (render (.blob n)) = render (.blob n) := up_render_bracket litBlob (by decide) n
   rw [hu]
   have h1 : matchArray (render (.blob n)) = none := by
@@ -353,26 +396,26 @@ theorem fromName_blob_err {n : Nat} (h : digitsFit n = false) :
     simp [matchBracket, render, litVarchar, litBlob, dropPrefix?]
   have h4 : matchBracket litBlob (render (.blob n)) = some (digits n) :=
     matchBracket_spec litBlob (digits n) [] (digits_ne_nil n) (digits_isD n)
-  simp [parseType, h1, h2, h3, h4, parseInt_digits_err h, Except.map]
+  simp [parseTypeCore, h1, h2, h3, h4, parseInt_digits_err h, Except.map]
 
 /-- any text whose upper-casing starts with `DECIMAL(<digits>,<spaces><digits>)` goes through the two
 `int()` conversions and the guards, whatever follows. -/
-theorem fromName_decimal_text {name d1 ws d2 rest : Str}
+theorem fromNameCore_decimal_text {name d1 ws d2 rest : Str}
     (hup : up name = litDecimal ++ '(' :: (d1 ++ ',' :: (ws ++ (d2 ++ ')' :: rest))))
     (h1 : d1 ≠ []) (h2 : d2 ≠ []) (hd1 : ∀ c ∈ d1, isD c = true) (hd2 : ∀ c ∈ d2, isD c = true)
     (hws : ∀ c ∈ ws, isS c = true) :
-    fromName name =
+    fromNameCore name =
       match parseInt d1 with
       | .error e => .error e
       | .ok p => match parseInt d2 with
         | .error e => .error e
         | .ok s => decimalResolve p s := by
-  unfold fromName
+  unfold fromNameCore
   rw [hup]
   have ha : matchArray (litDecimal ++ '(' :: (d1 ++ ',' :: (ws ++ (d2 ++ ')' :: rest)))) = none := by
     simp [matchArray, litArray, litDecimal, dropPrefix?]
   have hd := matchDecimal_spec d1 ws d2 rest h1 h2 hd1 hd2 hws
-  simp only [parseType, ha, hd]
+  simp only [parseTypeCore, ha, hd]
   cases parseInt d1 with
   | error e => rfl
   | ok p =>
@@ -390,12 +433,12 @@ theorem up_render_decimal (p s : Nat) : up (render (.decimal p s)) = render (.de
   simp only [render, up_append, up_cons, up_digits]
   rfl
 
-theorem fromName_decimal {p s : Nat} (h : s ≤ p ∧ p ≤ 38) :
-    fromName (render (.decimal p s)) = .ok { ty := .member litDecimal, precision := some p, scale := some s } := by
+theorem fromNameCore_decimal {p s : Nat} (h : s ≤ p ∧ p ≤ 38) :
+    fromNameCore (render (.decimal p s)) = .ok { ty := .member litDecimal, precision := some p, scale := some s } := by
   have hup : up (render (.decimal p s))
       = litDecimal ++ '(' :: (digits p ++ ',' :: ([] ++ (digits s ++ ')' :: []))) := by
     rw [up_render_decimal]; rfl
-  rw [fromName_decimal_text hup (digits_ne_nil p) (digits_ne_nil s) (digits_isD p) (digits_isD s) (by simp),
+  rw [fromNameCore_decimal_text hup (digits_ne_nil p) (digits_ne_nil s) (digits_isD p) (digits_isD s) (by simp),
     parseInt_digits (digitsFit_of_le_38 h.2), parseInt_digits (digitsFit_of_le_38 (by omega))]
   exact (decimalResolve_ok_iff p s).mpr h
 
@@ -457,12 +500,12 @@ theorem matchArray_eq_some {s body : Str} (h : matchArray s = some body) :
     · cases h
 
 
-theorem fromName_array_prefix {name r : Str} {d : Desc}
-    (hp : dropPrefix? (litArray ++ ['<']) (up name) = some r) (hok : fromName name = .ok d) :
+theorem fromNameCore_array_prefix {name r : Str} {d : Desc}
+    (hp : dropPrefix? (litArray ++ ['<']) (up name) = some r) (hok : fromNameCore name = .ok d) :
     ∃ e rest, r = e ++ '>' :: rest ∧ d = { ty := .member litArray, elem := some e } ∧
       isMember e = true ∧ e ≠ litArray ∧ e ≠ litDecimal ∧ excludedElem e = false := by
   have hs := dropPrefix?_eq_some hp
-  unfold fromName at hok
+  unfold fromNameCore at hok
   cases hm : matchArray (up name) with
   | some body =>
     obtain ⟨rest, hs2, _, _⟩ := matchArray_eq_some hm
@@ -471,7 +514,7 @@ theorem fromName_array_prefix {name r : Str} {d : Desc}
       have : litArray ++ ['<'] ++ r = litArray ++ ['<'] ++ (body ++ '>' :: rest) := by
         rw [hs2]; simp
       exact List.append_cancel_left this
-    have hpt : parseType (up name) = .ok (.array body) := by simp [parseType, hm]
+    have hpt : parseTypeCore (up name) = .ok (.array body) := by simp [parseTypeCore, hm]
     rw [hpt] at hok
     obtain ⟨hd, hmem, hx⟩ := arrayResolve_ok hok
     refine ⟨body, rest, hr, hd, hmem, ?_, ?_, hx⟩
@@ -485,27 +528,326 @@ theorem fromName_array_prefix {name r : Str} {d : Desc}
       rw [hs]; simp [matchBracket, litArray, litVarchar, dropPrefix?]
     have h4 : matchBracket litBlob (up name) = none := by
       rw [hs]; simp [matchBracket, litArray, litBlob, dropPrefix?]
-    have hpt : parseType (up name) = .ok (.bare (up (up name))) := by simp [parseType, hm, h2, h3, h4]
+    have hpt : parseTypeCore (up name) = .ok (.bare (up (up name))) := by simp [parseTypeCore, hm, h2, h3, h4]
     rw [hpt, up_up] at hok
     have hlt : '<' ∈ up name := by rw [hs]; simp
     simp only [bareResolve_of_lt hlt] at hok
     cases hok
+
+/-! ### the generated patterns and control flow coincide with the reference -/
+
+/-- every pattern is tried at the start of the text only (`re.match`). -/
+theorem anchors_atStart : anchorArray = .atStart ∧ anchorDecimal = .atStart ∧
+    anchorVarchar = .atStart ∧ anchorBlob = .atStart := by decide
+
+/-- the reference `_parse_type` over arbitrary Unicode tables. -/
+def parseTypeCoreU (U : Chars) (s : Str) : Except ExcClass Parsed :=
+  match matchArrayU U s with
+  | some body => .ok (.array body)
+  | none =>
+  match matchDecimalU U s with
+  | some (p, q) =>
+    match U.toInt p with
+    | .error e => .error e
+    | .ok p => match U.toInt q with
+      | .error e => .error e
+      | .ok q => .ok (.decimal p q)
+  | none =>
+  match matchBracketU U litVarchar s with
+  | some n => (U.toInt n).map .varchar
+  | none =>
+  match matchBracketU U litBlob s with
+  | some n => (U.toInt n).map .blob
+  | none => .ok (.bare (U.upper s))
+
+theorem parseTypeCoreU_ascii (s : Str) : parseTypeCoreU Chars.ascii s = parseTypeCore s := rfl
+
+/-- literal items consume a literal prefix. -/
+theorem matchItems_lits (U : Chars) (p : Str) (is : List RItem) (s : Str) :
+    matchItems U (p.map RItem.lit ++ is) s = (dropPrefix? p s).bind (matchItems U is) := by
+  induction p generalizing s with
+  | nil => cases s <;> simp [dropPrefix?]
+  | cons c cs ih =>
+    cases s with
+    | nil => simp [matchItems, dropPrefix?]
+    | cons x xs =>
+      by_cases h : c = x
+      · simp [matchItems, dropPrefix?, h, ih]
+      · simp [matchItems, dropPrefix?, h]
+
+theorem cls_elem (U : Chars) :
+    clsHolds U [.word, .space, .ch '[', .ch ']', .ch '(', .ch ')'] = isElemCharU U := by
+  funext c
+  simp [clsHolds, atomHolds, isElemCharU, Bool.or_assoc]
+
+theorem cls_digit (U : Chars) : clsHolds U [.digit] = U.isD := by
+  funext c; simp [clsHolds, atomHolds]
+
+theorem cls_space (U : Chars) : clsHolds U [.space] = U.isS := by
+  funext c; simp [clsHolds, atomHolds]
+
+/-- the ARRAY pattern, interpreted from its source, is the reference matcher. -/
+theorem matchItems_array (U : Chars) (s : Str) : (matchItems U rxArray s).bind group1 = matchArrayU U s := by
+  have hrx : rxArray = (litArray ++ ['<']).map RItem.lit ++
+      [.run [.word, .space, .ch '[', .ch ']', .ch '(', .ch ')'] 1 true, .lit '>'] := by decide
+  rw [hrx, matchItems_lits]
+  unfold matchArrayU
+  cases dropPrefix? (litArray ++ ['<']) s with
+  | none => rfl
+  | some r =>
+    simp only [Option.bind_some, matchItems, cls_elem]
+    generalize r.takeWhile (isElemCharU U) = taken
+    generalize r.dropWhile (isElemCharU U) = rest
+    cases taken with
+    | nil => simp
+    | cons t ts =>
+      cases rest with
+      | nil => simp
+      | cons x xs =>
+        by_cases hx : x = '>'
+        · subst hx; simp [group1]
+        · have hx' : ¬ '>' = x := fun h => hx h.symm
+          simp [hx']
+          split <;> simp_all
+
+/-- the VARCHAR / BLOB patterns. -/
+theorem matchItems_bracket (U : Chars) (pre : Str) (rx : List RItem)
+    (hrx : rx = (pre ++ ['[']).map RItem.lit ++ [.run [.digit] 1 true, .lit ']']) (s : Str) :
+    (matchItems U rx s).bind group1 = matchBracketU U pre s := by
+  rw [hrx, matchItems_lits]
+  unfold matchBracketU
+  cases dropPrefix? (pre ++ ['[']) s with
+  | none => rfl
+  | some r =>
+    simp only [Option.bind_some, matchItems, cls_digit]
+    generalize r.takeWhile U.isD = taken
+    generalize r.dropWhile U.isD = rest
+    cases taken with
+    | nil => simp
+    | cons t ts =>
+      cases rest with
+      | nil => simp
+      | cons x xs =>
+        by_cases hx : x = ']'
+        · subst hx; simp [group1]
+        · have hx' : ¬ ']' = x := fun h => hx h.symm
+          simp [hx']
+          split <;> simp_all
+
+theorem matchItems_varchar (U : Chars) (s : Str) :
+    (matchItems U rxVarchar s).bind group1 = matchBracketU U litVarchar s :=
+  matchItems_bracket U litVarchar rxVarchar (by decide) s
+
+theorem matchItems_blob (U : Chars) (s : Str) :
+    (matchItems U rxBlob s).bind group1 = matchBracketU U litBlob s :=
+  matchItems_bracket U litBlob rxBlob (by decide) s
+
+/-- the DECIMAL pattern. -/
+theorem matchItems_decimal (U : Chars) (s : Str) : (matchItems U rxDecimal s).bind group2 = matchDecimalU U s := by
+  have hrx : rxDecimal = (litDecimal ++ ['(']).map RItem.lit ++
+      [.run [.digit] 1 true, .lit ',', .run [.space] 0 false, .run [.digit] 1 true, .lit ')'] := by decide
+  rw [hrx, matchItems_lits]
+  unfold matchDecimalU
+  cases dropPrefix? (litDecimal ++ ['(']) s with
+  | none => rfl
+  | some r1 =>
+    simp only [Option.bind_some, matchItems, cls_digit, cls_space]
+    generalize r1.takeWhile U.isD = t1
+    generalize r1.dropWhile U.isD = rest1
+    cases t1 with
+    | nil => simp
+    | cons a as =>
+      cases rest1 with
+      | nil => simp
+      | cons x r2 =>
+        by_cases hx : x = ','
+        · subst hx
+          simp only [if_true]
+          generalize (r2.dropWhile U.isS).takeWhile U.isD = t2
+          generalize (r2.dropWhile U.isS).dropWhile U.isD = rest2
+          cases t2 with
+          | nil => simp
+          | cons b bs =>
+            cases rest2 with
+            | nil => simp
+            | cons y ys =>
+              by_cases hy : y = ')'
+              · subst hy; simp [group2]
+              · have hy' : ¬ ')' = y := fun h => hy h.symm
+                simp [hy']
+                split <;> simp_all
+        · have hx' : ¬ ',' = x := fun h => hx h.symm
+          simp [hx']
+          split <;> simp_all
+
+theorem tryKindU_array (U : Chars) (s : Str) :
+    tryKindU U s .array = (matchArrayU U s).map (fun body => .ok (.array body)) := by
+  simp [tryKindU, anchored, anchors_atStart, matchItems_array]
+
+theorem tryKindU_decimal (U : Chars) (s : Str) :
+    tryKindU U s .decimal = (matchDecimalU U s).map (fun pq =>
+      match U.toInt pq.1 with
+      | .error e => .error e
+      | .ok p => match U.toInt pq.2 with
+        | .error e => .error e
+        | .ok q => .ok (.decimal p q)) := by
+  simp [tryKindU, anchored, anchors_atStart, matchItems_decimal] <;> rfl
+
+theorem tryKindU_varchar (U : Chars) (s : Str) :
+    tryKindU U s .varchar = (matchBracketU U litVarchar s).map (fun n => (U.toInt n).map .varchar) := by
+  simp [tryKindU, anchored, anchors_atStart, matchItems_varchar]
+
+theorem tryKindU_blob (U : Chars) (s : Str) :
+    tryKindU U s .blob = (matchBracketU U litBlob s).map (fun n => (U.toInt n).map .blob) := by
+  simp [tryKindU, anchored, anchors_atStart, matchItems_blob]
+
+theorem matchArrayU_head {U : Chars} {c : Char} {cs : Str} (h : c ≠ 'A') : matchArrayU U (c :: cs) = none := by
+  simp [matchArrayU, litArray, dropPrefix?, h.symm]
+
+theorem matchDecimalU_head {U : Chars} {c : Char} {cs : Str} (h : c ≠ 'D') : matchDecimalU U (c :: cs) = none := by
+  simp [matchDecimalU, litDecimal, dropPrefix?, h.symm]
+
+theorem matchVarcharU_head {U : Chars} {c : Char} {cs : Str} (h : c ≠ 'V') :
+    matchBracketU U litVarchar (c :: cs) = none := by
+  simp [matchBracketU, litVarchar, dropPrefix?, h.symm]
+
+theorem matchBlobU_head {U : Chars} {c : Char} {cs : Str} (h : c ≠ 'B') :
+    matchBracketU U litBlob (c :: cs) = none := by
+  simp [matchBracketU, litBlob, dropPrefix?, h.symm]
+
+/-- the four patterns start with four different letters, so at most one of them matches a text and the
+order in which they are tried does not matter: whatever permutation `parseOrder` is, `_parse_type` — with
+the patterns and the control flow read from the source — is the reference, over any Unicode tables. -/
+theorem parseTypeU_eq_core (U : Chars) (s : Str) : parseTypeU U s = parseTypeCoreU U s := by
+  have hb : upperBareReturn = true := by decide
+  cases s with
+  | nil =>
+    simp [parseTypeU, parseTypeCoreU, parseOrder, tryKindU_array, tryKindU_decimal, tryKindU_varchar, tryKindU_blob,
+      matchArrayU, matchDecimalU, matchBracketU, litArray, litDecimal, litVarchar, litBlob, dropPrefix?, hb]
+  | cons c cs =>
+    by_cases hA : c = 'A'
+    · subst hA
+      have h2 := matchDecimalU_head (U := U) (c := 'A') (cs := cs) (by decide)
+      have h3 := matchVarcharU_head (U := U) (c := 'A') (cs := cs) (by decide)
+      have h4 := matchBlobU_head (U := U) (c := 'A') (cs := cs) (by decide)
+      cases h1 : matchArrayU U ('A' :: cs) <;>
+        simp [parseTypeU, parseTypeCoreU, parseOrder, tryKindU_array, tryKindU_decimal, tryKindU_varchar,
+          tryKindU_blob, hb, h1, h2, h3, h4]
+    by_cases hD : c = 'D'
+    · subst hD
+      have h1 := matchArrayU_head (U := U) (c := 'D') (cs := cs) (by decide)
+      have h3 := matchVarcharU_head (U := U) (c := 'D') (cs := cs) (by decide)
+      have h4 := matchBlobU_head (U := U) (c := 'D') (cs := cs) (by decide)
+      cases h2 : matchDecimalU U ('D' :: cs) with
+      | none =>
+        simp [parseTypeU, parseTypeCoreU, parseOrder, tryKindU_array, tryKindU_decimal, tryKindU_varchar,
+          tryKindU_blob, hb, h1, h2, h3, h4]
+      | some pq =>
+        obtain ⟨p, q⟩ := pq
+        simp [parseTypeU, parseTypeCoreU, parseOrder, tryKindU_array, tryKindU_decimal, tryKindU_varchar,
+          tryKindU_blob, hb, h1, h2, h3, h4] <;> rfl
+    by_cases hV : c = 'V'
+    · subst hV
+      have h1 := matchArrayU_head (U := U) (c := 'V') (cs := cs) (by decide)
+      have h2 := matchDecimalU_head (U := U) (c := 'V') (cs := cs) (by decide)
+      have h4 := matchBlobU_head (U := U) (c := 'V') (cs := cs) (by decide)
+      cases h3 : matchBracketU U litVarchar ('V' :: cs) <;>
+        simp [parseTypeU, parseTypeCoreU, parseOrder, tryKindU_array, tryKindU_decimal, tryKindU_varchar,
+          tryKindU_blob, hb, h1, h2, h3, h4]
+    by_cases hB : c = 'B'
+    · subst hB
+      have h1 := matchArrayU_head (U := U) (c := 'B') (cs := cs) (by decide)
+      have h2 := matchDecimalU_head (U := U) (c := 'B') (cs := cs) (by decide)
+      have h3 := matchVarcharU_head (U := U) (c := 'B') (cs := cs) (by decide)
+      cases h4 : matchBracketU U litBlob ('B' :: cs) <;>
+        simp [parseTypeU, parseTypeCoreU, parseOrder, tryKindU_array, tryKindU_decimal, tryKindU_varchar,
+          tryKindU_blob, hb, h1, h2, h3, h4]
+    · simp [parseTypeU, parseTypeCoreU, parseOrder, tryKindU_array, tryKindU_decimal, tryKindU_varchar,
+        tryKindU_blob, hb, matchArrayU_head hA, matchDecimalU_head hD, matchVarcharU_head hV, matchBlobU_head hB]
+
+theorem parseType_eq_core (s : Str) : parseType s = parseTypeCore s := by
+  rw [← parseTypeCoreU_ascii]; exact parseTypeU_eq_core Chars.ascii s
+
+/-- `VARCHAR[n]` / `BLOB[n]`: the member of the same name, `n` in the length (types.py:209-214). -/
+theorem lengthResolve_varchar (n : Nat) :
+    lengthResolve litVarchar n = .ok { ty := .member litVarchar, length := some n } := rfl
+
+theorem lengthResolve_blob (n : Nat) :
+    lengthResolve litBlob n = .ok { ty := .member litBlob, length := some n } := rfl
+
+/-- `_precision, _scale = parsed_types[1]`: precision first. -/
+theorem decimalBind_id (p s : Nat) : decimalBind p s = (p, s) := by
+  have : decimalTargets ≠ [.scale, .precision] := by decide
+  simp [decimalBind, this]
+
+/-- the model of `from_name` that follows the extracted control flow is the reference, on every text. -/
+theorem fromName_eq_core (name : Str) : fromName name = fromNameCore name := by
+  have hu : upperInFromName = true := by decide
+  have hup : Chars.ascii.upper name = up name := rfl
+  unfold fromName fromNameU fromNameCore
+  simp only [hu, if_true, hup]
+  rw [show parseTypeU Chars.ascii (up name) = parseTypeCore (up name) from parseType_eq_core (up name)]
+  cases parseTypeCore (up name) with
+  | error e => rfl
+  | ok r => cases r <;> simp [lengthResolve_varchar, lengthResolve_blob, decimalBind_id]
+
+theorem parseType_err {s : Str} {e : ExcClass} (h : parseType s = .error e) : e = .valueError :=
+  parseTypeCore_err (by rw [← parseType_eq_core]; exact h)
+
+theorem fromName_varchar {n : Nat} (h : digitsFit n = true) :
+    fromName (render (.varchar n)) = .ok { ty := .member litVarchar, length := some n } := by
+  rw [fromName_eq_core]; exact fromNameCore_varchar h
+
+theorem fromName_blob {n : Nat} (h : digitsFit n = true) :
+    fromName (render (.blob n)) = .ok { ty := .member litBlob, length := some n } := by
+  rw [fromName_eq_core]; exact fromNameCore_blob h
+
+theorem fromName_varchar_err {n : Nat} (h : digitsFit n = false) :
+    fromName (render (.varchar n)) = .error .valueError := by
+  rw [fromName_eq_core]; exact fromNameCore_varchar_err h
+
+theorem fromName_blob_err {n : Nat} (h : digitsFit n = false) :
+    fromName (render (.blob n)) = .error .valueError := by
+  rw [fromName_eq_core]; exact fromNameCore_blob_err h
+
+theorem fromName_decimal_text {name d1 ws d2 rest : Str}
+    (hup : up name = litDecimal ++ '(' :: (d1 ++ ',' :: (ws ++ (d2 ++ ')' :: rest))))
+    (h1 : d1 ≠ []) (h2 : d2 ≠ []) (hd1 : ∀ c ∈ d1, isD c = true) (hd2 : ∀ c ∈ d2, isD c = true)
+    (hws : ∀ c ∈ ws, isS c = true) :
+    fromName name =
+      match parseInt d1 with
+      | .error e => .error e
+      | .ok p => match parseInt d2 with
+        | .error e => .error e
+        | .ok s => decimalResolve p s := by
+  rw [fromName_eq_core]; exact fromNameCore_decimal_text hup h1 h2 hd1 hd2 hws
+
+theorem fromName_decimal {p s : Nat} (h : s ≤ p ∧ p ≤ 38) :
+    fromName (render (.decimal p s)) = .ok { ty := .member litDecimal, precision := some p, scale := some s } := by
+  rw [fromName_eq_core]; exact fromNameCore_decimal h
+
+theorem fromName_array_prefix {name r : Str} {d : Desc}
+    (hp : dropPrefix? (litArray ++ ['<']) (up name) = some r) (hok : fromName name = .ok d) :
+    ∃ e rest, r = e ++ '>' :: rest ∧ d = { ty := .member litArray, elem := some e } ∧
+      isMember e = true ∧ e ≠ litArray ∧ e ≠ litDecimal ∧ excludedElem e = false :=
+  fromNameCore_array_prefix hp (by rw [← fromName_eq_core]; exact hok)
 
 /-! ### columns and type codes -/
 
 theorem declare_varchar {n : Nat} (h : digitsFit n = true) :
     declare (render (.varchar n)) = .ok { ty := .member litVarchar, length := some n } := by
   have : (Ty.member litVarchar = Ty.member litDecimal) = False := by decide
-  simp [declare, fromName_varchar h, this]
+  simp [declare, declareWith, fromName_varchar h, mergeRules, applyRule, missing, natSlot, decimalDefaults, this]
 
 theorem declare_blob {n : Nat} (h : digitsFit n = true) :
     declare (render (.blob n)) = .ok { ty := .member litBlob, length := some n } := by
   have : (Ty.member litBlob = Ty.member litDecimal) = False := by decide
-  simp [declare, fromName_blob h, this]
+  simp [declare, declareWith, fromName_blob h, mergeRules, applyRule, missing, natSlot, decimalDefaults, this]
 
 theorem declare_decimal {p s : Nat} (h : s ≤ p ∧ p ≤ 38) :
     declare (render (.decimal p s)) = .ok { ty := .member litDecimal, precision := some p, scale := some s } := by
-  simp [declare, fromName_decimal h]
+  simp [declare, declareWith, fromName_decimal h, mergeRules, applyRule, missing, natSlot, decimalDefaults,
+    decimalPrecisionTest, decimalScaleTest]
 
 theorem typeCode_decimal (p s : Nat) :
     typeCode { ty := .member litDecimal, precision := some p, scale := some s } = some (render (.decimal p s)) := by
@@ -531,6 +873,26 @@ theorem typeCode_blob (n : Nat) :
   have h3 : decide (litBlob = descArrayKey) = false := by decide
   simp only [typeCode, h1, h2, h3, if_false]
 
+/-- the type-code statements read from the source (`descProgram`) compute the reference type code, and
+fill in precision and scale exactly for a DECIMAL — for every column. -/
+theorem codeState_eq (c : Desc) (m : Str) (h : c.ty = .member m) :
+    ∃ code, typeCode c = some code ∧
+      codeState c = some { code := some code, params := decide (valueOf m = descDecimalKey) } := by
+  obtain ⟨ty, len, p, s, e⟩ := c
+  simp only at h
+  subst h
+  by_cases hd : valueOf m = ['D', 'E', 'C', 'I', 'M', 'A', 'L'] <;>
+    by_cases ha : valueOf m = ['A', 'R', 'R', 'A', 'Y'] <;> cases e <;>
+      simp [codeState, typeCode, descProgram, runGroups, runGroup, armHolds, fmtCode, descDecimalKey, descArrayKey,
+        descDecimalPre, descDecimalMid, descDecimalPost, descArrayPre, descArrayPost, hd, ha]
+
+theorem typeCodeP_eq (c : Desc) : typeCodeP c = typeCode c := by
+  cases h : c.ty with
+  | zero => simp [typeCodeP, codeState, typeCode, h]
+  | member m =>
+    obtain ⟨code, h1, h2⟩ := codeState_eq c m h
+    simp [typeCodeP, h1, h2]
+
 theorem roundtrip_base : ∀ m ∈ baseTypes,
     okAnd (declare (render (.base m))) (columnRoundTrips (.base m)) = true := by decide
 
@@ -542,5 +904,453 @@ theorem render_base_all : ∀ m ∈ baseTypes,
 
 theorem render_array_all : ∀ e ∈ scalarTypes,
     okAnd (fromName (render (.array e))) (denotes (.array e)) = true := by decide
+
+
+/-! ### `description` over a schema -/
+
+theorem entryOf_name {n : Str} {d : Desc} {e : Entry} (h : entryOf n d = some e) :
+    e.name = n ∧ some e.code = typeCode d := by
+  rw [← typeCodeP_eq]
+  unfold entryOf at h
+  cases hs : codeState d with
+  | none => simp [hs] at h
+  | some st =>
+    cases hc : st.code with
+    | none => simp [hs, hc] at h
+    | some code =>
+      simp [hs, hc] at h
+      subst h
+      simp [typeCodeP, hs, hc]
+
+theorem entryOf_isSome {n : Str} {d : Desc} (h : (typeCode d).isSome = true) : (entryOf n d).isSome = true := by
+  rw [← typeCodeP_eq] at h
+  unfold entryOf
+  unfold typeCodeP at h
+  cases hs : codeState d with
+  | none => simp [hs] at h
+  | some st =>
+    cases hc : st.code with
+    | none => simp [hs, hc] at h
+    | some code => simp [hc]
+
+/-- the precision / scale fields of an entry are the column's for a DECIMAL and empty otherwise. -/
+theorem entryOf_params {n : Str} {d : Desc} {e : Entry} {m : Str} (hm : d.ty = .member m)
+    (h : entryOf n d = some e) :
+    (valueOf m = descDecimalKey → e.precision = d.precision ∧ e.scale = d.scale) ∧
+    (valueOf m ≠ descDecimalKey → e.precision = none ∧ e.scale = none) := by
+  obtain ⟨code, _, h2⟩ := codeState_eq d m hm
+  simp only [entryOf, h2] at h
+  cases h
+  constructor
+  · intro hd; simp [hd]
+  · intro hd; simp [hd]
+
+/-- built by position, the entries are those of the columns themselves, one for one. -/
+theorem describeFrom_byPosition (all : List Col) :
+    ∀ (cs : List Col) (k : Nat) (es : List Entry),
+      (∀ (j : Nat) (c : Col), cs[j]? = some c → all[k + j]? = some c) →
+      describeFrom .byPosition all k cs = some es →
+      es.length = cs.length ∧
+        ∀ (j : Nat) (c : Col), cs[j]? = some c → ∃ e, es[j]? = some e ∧ entryOf c.name c.desc = some e := by
+  intro cs
+  induction cs with
+  | nil =>
+    intro k es _ h
+    simp only [describeFrom] at h
+    cases h
+    exact ⟨rfl, by intro j c hj; simp at hj⟩
+  | cons c cs ih =>
+    intro k es hall h
+    have h0 : all[k]? = some c := by simpa using hall 0 c (by simp)
+    simp only [describeFrom, entrySource, h0, Option.bind_some] at h
+    cases he : entryOf c.name c.desc with
+    | none => simp [he] at h
+    | some e =>
+      cases hr : describeFrom .byPosition all (k + 1) cs with
+      | none => simp [he, hr] at h
+      | some es' =>
+        simp [he, hr] at h
+        subst h
+        have hall' : ∀ j c', cs[j]? = some c' → all[k + 1 + j]? = some c' := by
+          intro j c' hj
+          have := hall (j + 1) c' (by simpa using hj)
+          simpa [Nat.add_assoc, Nat.add_comm 1 j] using this
+        obtain ⟨hl, hi⟩ := ih (k + 1) es' hall' hr
+        refine ⟨by simp [hl], ?_⟩
+        intro j c' hj
+        cases j with
+        | zero => simp at hj; subst hj; exact ⟨e, by simp, he⟩
+        | succ j => simpa using hi j c' (by simpa using hj)
+
+theorem describeFrom_byPosition_some (all : List Col) :
+    ∀ (cs : List Col) (k : Nat),
+      (∀ (j : Nat) (c : Col), cs[j]? = some c → all[k + j]? = some c) →
+      (∀ c ∈ cs, (entryOf c.name c.desc).isSome = true) →
+      ∃ es, describeFrom .byPosition all k cs = some es := by
+  intro cs
+  induction cs with
+  | nil => intro k _ _; exact ⟨[], rfl⟩
+  | cons c cs ih =>
+    intro k hall hsome
+    have h0 : all[k]? = some c := by simpa using hall 0 c (by simp)
+    have hall' : ∀ j c', cs[j]? = some c' → all[k + 1 + j]? = some c' := by
+      intro j c' hj
+      have := hall (j + 1) c' (by simpa using hj)
+      simpa [Nat.add_assoc, Nat.add_comm 1 j] using this
+    obtain ⟨es', hr⟩ := ih (k + 1) hall' (fun c' hc' => hsome c' (List.mem_cons_of_mem _ hc'))
+    obtain ⟨e, he⟩ := Option.isSome_iff_exists.mp (hsome c List.mem_cons_self)
+    exact ⟨e :: es', by simp [describeFrom, entrySource, h0, he, hr]⟩
+
+/-- the source looks the column up by position. -/
+theorem descLookup_byPosition : descLookup = .byPosition := by decide
+
+
+/-! ### merging explicit and parsed parameters -/
+
+theorem declareWith_ok {name : Str} {x : Explicit} {c : Desc} (h : declareWith name x = .ok c) :
+    ∃ d, fromName name = .ok d ∧
+      c = decimalDefaults (match d.ty with
+        | .zero => { ty := d.ty, length := x.length, precision := x.precision, scale := x.scale, elem := x.elem }
+        | .member _ => mergeRules.foldl (applyRule d)
+            { ty := d.ty, length := x.length, precision := x.precision, scale := x.scale, elem := x.elem }) := by
+  unfold declareWith at h
+  cases hd : fromName name with
+  | error e => rw [hd] at h; cases h
+  | ok d => rw [hd] at h; cases h; exact ⟨d, rfl, rfl⟩
+
+theorem decimalDefaults_keeps (c : Desc) :
+    (∀ v, c.precision = some v → (decimalDefaults c).precision = some v) ∧
+    (∀ v, c.scale = some v → (decimalDefaults c).scale = some v) ∧
+    (decimalDefaults c).length = c.length ∧ (decimalDefaults c).elem = c.elem ∧ (decimalDefaults c).ty = c.ty := by
+  have h1 : decimalPrecisionTest = .isNone := by decide
+  have h2 : decimalScaleTest = .isNone := by decide
+  unfold decimalDefaults
+  split
+  · refine ⟨?_, ?_, rfl, rfl, rfl⟩
+    · intro v hv; simp [h1, missing, hv]
+    · intro v hv; simp [h2, missing, hv]
+  · exact ⟨fun _ h => h, fun _ h => h, rfl, rfl, rfl⟩
+
+/-- the merged column, for the rules the source has now -/
+theorem merged_eq (d c0 : Desc) :
+    mergeRules.foldl (applyRule d) c0 =
+      { ty := c0.ty, length := c0.length.or d.length, precision := c0.precision.or d.precision,
+        scale := c0.scale.or d.scale, elem := c0.elem.or d.elem } := by
+  obtain ⟨ty, len, p, s, e⟩ := c0
+  cases len <;> cases p <;> cases s <;> cases e <;>
+    simp [mergeRules, List.foldl, applyRule, missing, natSlot]
+
+theorem merged_keeps_explicit (d : Desc) (x : Explicit) :
+    let c := decimalDefaults (match d.ty with
+        | .zero => { ty := d.ty, length := x.length, precision := x.precision, scale := x.scale, elem := x.elem }
+        | .member _ => mergeRules.foldl (applyRule d)
+            { ty := d.ty, length := x.length, precision := x.precision, scale := x.scale, elem := x.elem })
+    (∀ v, x.precision = some v → c.precision = some v) ∧ (∀ v, x.scale = some v → c.scale = some v) ∧
+    (∀ v, x.length = some v → c.length = some v) ∧ (∀ e, x.elem = some e → c.elem = some e) := by
+  intro c
+  obtain ⟨kp, ks, kl, ke, _⟩ := decimalDefaults_keeps (match d.ty with
+        | .zero => { ty := d.ty, length := x.length, precision := x.precision, scale := x.scale, elem := x.elem }
+        | .member _ => mergeRules.foldl (applyRule d)
+            { ty := d.ty, length := x.length, precision := x.precision, scale := x.scale, elem := x.elem })
+  cases hty : d.ty with
+  | zero =>
+    simp only [c, hty] at kp ks kl ke ⊢
+    exact ⟨fun v hv => kp v hv, fun v hv => ks v hv, fun v hv => by rw [kl]; exact hv, fun e he => by rw [ke]; exact he⟩
+  | member m =>
+    simp only [c, hty, merged_eq] at kp ks kl ke ⊢
+    refine ⟨fun v hv => kp v (by simp [hv]), fun v hv => ks v (by simp [hv]),
+      fun v hv => by rw [kl]; simp [hv], fun e he => by rw [ke]; simp [he]⟩
+
+theorem merged_carries_parsed (d : Desc) (hm : d.ty ≠ .zero) :
+    let c := decimalDefaults (match d.ty with
+        | .zero => { ty := d.ty, length := none, precision := none, scale := none, elem := none }
+        | .member _ => mergeRules.foldl (applyRule d)
+            { ty := d.ty, length := none, precision := none, scale := none, elem := none })
+    c.ty = d.ty ∧ c.length = d.length ∧ c.elem = d.elem ∧
+    (∀ p, d.precision = some p → c.precision = some p) ∧ (∀ q, d.scale = some q → c.scale = some q) := by
+  intro c
+  cases hty : d.ty with
+  | zero => exact absurd hty hm
+  | member m =>
+    obtain ⟨kp, ks, kl, ke, kt⟩ := decimalDefaults_keeps (mergeRules.foldl (applyRule d)
+            { ty := d.ty, length := none, precision := none, scale := none, elem := none })
+    simp only [c, hty, merged_eq] at kp ks kl ke kt ⊢
+    refine ⟨by rw [kt], by rw [kl]; simp, by rw [ke]; simp, fun p hp => kp p (by simp [hp]), fun q hq => ks q (by simp [hq])⟩
+
+theorem declareEnum_keeps (m : Str) (x : Explicit) :
+    (∀ v, x.precision = some v → (declareEnum m x).precision = some v) ∧
+    (∀ v, x.scale = some v → (declareEnum m x).scale = some v) ∧
+    (declareEnum m x).length = x.length ∧ (declareEnum m x).elem = x.elem ∧ (declareEnum m x).ty = .member m := by
+  obtain ⟨kp, ks, kl, ke, kt⟩ := decimalDefaults_keeps
+    { ty := .member m, length := x.length, precision := x.precision, scale := x.scale, elem := x.elem }
+  exact ⟨kp, ks, kl, ke, kt⟩
+
+theorem declareEnum_decimal (x : Explicit) :
+    (declareEnum litDecimal x).precision = some (x.precision.getD decimalDefaultPrecision) ∧
+    (declareEnum litDecimal x).scale =
+      some (x.scale.getD (scaleNum * x.precision.getD decimalDefaultPrecision / scaleDen)) := by
+  have h1 : decimalPrecisionTest = .isNone := by decide
+  have h2 : decimalScaleTest = .isNone := by decide
+  obtain ⟨e, p, s, l⟩ := x
+  cases p <;> cases s <;> simp [declareEnum, decimalDefaults, h1, h2, missing]
+
+/-! ### lists -/
+
+theorem forall₂_getElem? {α β : Type} {R : α → β → Prop} {xs : List α} {ys : List β}
+    (h : List.Forall₂ R xs ys) {i : Nat} {x : α} {y : β} (hx : xs[i]? = some x) (hy : ys[i]? = some y) : R x y := by
+  induction h generalizing i with
+  | nil => simp at hx
+  | cons hr _ ih =>
+    cases i with
+    | zero => simp at hx hy; subst hx; subst hy; exact hr
+    | succ i => exact ih (by simpa using hx) (by simpa using hy)
+
+theorem forall₂_getElem?_right {α β : Type} {R : α → β → Prop} {xs : List α} {ys : List β}
+    (h : List.Forall₂ R xs ys) {i : Nat} {y : β} (hy : ys[i]? = some y) : ∃ x, xs[i]? = some x := by
+  induction h generalizing i with
+  | nil => simp at hy
+  | cons hr _ ih =>
+    cases i with
+    | zero => exact ⟨_, List.getElem?_cons_zero⟩
+    | succ i => simpa using ih (by simpa using hy)
+
+theorem columnRoundTrips_code {t : TName} {c : Desc} (h : columnRoundTrips t c = true) :
+    (typeCode c).isSome = true := by
+  unfold columnRoundTrips at h
+  cases hc : typeCode c with
+  | none => simp [hc] at h
+  | some code => rfl
+
+
+/-! ### totality over all of Unicode -/
+
+theorem fromNameU_ascii (name : Str) : fromNameU Chars.ascii name = fromName name := rfl
+
+/-- the branches for `VARCHAR[n]` / `BLOB[n]` name a member that may carry a length, and store `n` there. -/
+def goodLengthBranch (b : Str × Str × Slot) : Bool :=
+  isMember b.2.1 && (b.2.1 == litVarchar || b.2.1 == litBlob) && b.2.2 == .length
+
+theorem lengthBranches_good : ∀ b ∈ lengthBranches, goodLengthBranch b = true := by decide
+
+theorem lengthResolve_total (head : Str) (n : Nat) : Total (lengthResolve head n) := by
+  unfold lengthResolve
+  cases h : lengthBranches.find? (fun b => b.1 == head) with
+  | none => exact .inr rfl
+  | some b =>
+    obtain ⟨hd, m, slot⟩ := b
+    have hg := lengthBranches_good _ (List.mem_of_find?_eq_some h)
+    simp only [goodLengthBranch, Bool.and_eq_true, Bool.or_eq_true, beq_iff_eq] at hg
+    obtain ⟨⟨hm, hvb⟩, hs⟩ := hg
+    subst hs
+    refine .inl ⟨_, rfl, ?_⟩
+    rcases hvb with rfl | rfl <;> simp [setNat, wfOut, hm]
+
+theorem tryKindU_err {U : Chars} (hint : ∀ ds e, U.toInt ds = .error e → e = .valueError)
+    {s : Str} {k : PKind} {e : ExcClass} (h : tryKindU U s k = some (.error e)) : e = .valueError := by
+  cases k with
+  | array =>
+    simp only [tryKindU, Option.map_eq_some_iff] at h
+    obtain ⟨_, _, h⟩ := h
+    cases h
+  | decimal =>
+    simp only [tryKindU, Option.map_eq_some_iff] at h
+    obtain ⟨pq, _, h⟩ := h
+    cases h1 : U.toInt pq.1 with
+    | error e1 => rw [h1] at h; cases h; exact hint _ _ h1
+    | ok p =>
+      rw [h1] at h
+      cases h2 : U.toInt pq.2 with
+      | error e2 => rw [h2] at h; cases h; exact hint _ _ h2
+      | ok q => rw [h2] at h; cases h
+  | varchar =>
+    simp only [tryKindU, Option.map_eq_some_iff] at h
+    obtain ⟨n, _, h⟩ := h
+    cases h1 : U.toInt n with
+    | error e1 => rw [h1] at h; cases h; exact hint _ _ h1
+    | ok v => rw [h1] at h; cases h
+  | blob =>
+    simp only [tryKindU, Option.map_eq_some_iff] at h
+    obtain ⟨n, _, h⟩ := h
+    cases h1 : U.toInt n with
+    | error e1 => rw [h1] at h; cases h; exact hint _ _ h1
+    | ok v => rw [h1] at h; cases h
+
+theorem parseTypeU_err {U : Chars} (hint : ∀ ds e, U.toInt ds = .error e → e = .valueError)
+    {s : Str} {e : ExcClass} (h : parseTypeU U s = .error e) : e = .valueError := by
+  unfold parseTypeU at h
+  cases hf : parseOrder.findSome? (tryKindU U s) with
+  | none => rw [hf] at h; cases h
+  | some r =>
+    rw [hf] at h
+    subst h
+    obtain ⟨k, _, hk⟩ := List.exists_of_findSome?_eq_some hf
+    exact tryKindU_err hint hk
+
+theorem fromNameU_total (U : Chars) (hint : ∀ ds e, U.toInt ds = .error e → e = .valueError)
+    (name : Str) : Total (fromNameU U name) := by
+  unfold fromNameU
+  cases h : parseTypeU U (if upperInFromName then U.upper name else name) with
+  | error e => exact .inr (by rw [parseTypeU_err hint h])
+  | ok r =>
+    cases r with
+    | bare b => exact bareResolve_total b
+    | array body => exact arrayResolve_total body
+    | decimal p s => exact decimalResolve_total _ _
+    | varchar n => exact lengthResolve_total _ n
+    | blob n => exact lengthResolve_total _ n
+
+
+/-! ### rejection over all of Unicode -/
+
+/-- what the rejection theorems need to know about the Unicode tables: `>` is in none of the classes of the
+ARRAY pattern; `,` and `)` are not digits; no digit is whitespace; upper-casing never loses a `<`; `int()`
+raises nothing but `ValueError`. -/
+structure Chars.Sane (U : Chars) : Prop where
+  gt : isElemCharU U '>' = false
+  comma : U.isD ',' = false
+  paren : U.isD ')' = false
+  digit_not_space : ∀ c, U.isD c = true → U.isS c = false
+  keeps_lt : ∀ s : Str, '<' ∈ s → '<' ∈ U.upper s
+  int_err : ∀ ds e, U.toInt ds = .error e → e = .valueError
+
+theorem Chars.ascii_sane : Chars.Sane Chars.ascii where
+  gt := by decide
+  comma := by decide
+  paren := by decide
+  digit_not_space := by
+    intro c h
+    revert h
+    simp only [Chars.ascii, TypeName.isD, TypeName.isS, Char.isDigit, UInt32.le_iff_toNat_le, Char.toNat]
+    intro hh
+    simp at hh ⊢
+    omega
+  keeps_lt := by
+    intro s h
+    simp only [Chars.ascii, up, List.mem_map]
+    exact ⟨'<', h, by decide⟩
+  int_err := fun _ _ h => parseInt_err h
+
+/-- a text that starts with `A`: only the ARRAY pattern can match (whatever the order of the blocks). -/
+theorem parseTypeU_A (U : Chars) (cs : Str) :
+    parseTypeU U ('A' :: cs) =
+      match matchArrayU U ('A' :: cs) with
+      | some body => .ok (.array body)
+      | none => .ok (.bare (U.upper ('A' :: cs))) := by
+  rw [parseTypeU_eq_core]
+  have h2 := matchDecimalU_head (U := U) (c := 'A') (cs := cs) (by decide)
+  have h3 := matchVarcharU_head (U := U) (c := 'A') (cs := cs) (by decide)
+  have h4 := matchBlobU_head (U := U) (c := 'A') (cs := cs) (by decide)
+  cases h1 : matchArrayU U ('A' :: cs) <;> simp [parseTypeCoreU, h1, h2, h3, h4]
+
+/-- a text that starts with `D`: only the DECIMAL pattern can match. -/
+theorem parseTypeU_D (U : Chars) (cs : Str) :
+    parseTypeU U ('D' :: cs) =
+      match matchDecimalU U ('D' :: cs) with
+      | some pq =>
+        (match U.toInt pq.1 with
+         | .error e => .error e
+         | .ok p => match U.toInt pq.2 with
+           | .error e => .error e
+           | .ok q => .ok (.decimal p q))
+      | none => .ok (.bare (U.upper ('D' :: cs))) := by
+  rw [parseTypeU_eq_core]
+  have h1 := matchArrayU_head (U := U) (c := 'D') (cs := cs) (by decide)
+  have h3 := matchVarcharU_head (U := U) (c := 'D') (cs := cs) (by decide)
+  have h4 := matchBlobU_head (U := U) (c := 'D') (cs := cs) (by decide)
+  cases h2 : matchDecimalU U ('D' :: cs) with
+  | none => simp [parseTypeCoreU, h1, h2, h3, h4]
+  | some pq => obtain ⟨p, q⟩ := pq; simp [parseTypeCoreU, h1, h2] <;> rfl
+
+theorem matchArrayU_eq_some {U : Chars} {s body : Str} (h : matchArrayU U s = some body) :
+    ∃ rest, s = litArray ++ '<' :: (body ++ '>' :: rest) := by
+  unfold matchArrayU at h
+  split at h
+  · cases h
+  · rename_i r hr
+    have hs := dropPrefix?_eq_some hr
+    split at h
+    · rename_i a as rest htw hdw
+      cases h
+      refine ⟨rest, ?_⟩
+      have := List.takeWhile_append_dropWhile (p := isElemCharU U) (l := r)
+      rw [hdw] at this
+      rw [hs, this]
+      simp
+    · cases h
+
+theorem fromNameU_array_prefix {U : Chars} (hU : U.Sane) {name r : Str} {d : Desc}
+    (hp : dropPrefix? (litArray ++ ['<']) (U.upper name) = some r) (hok : fromNameU U name = .ok d) :
+    ∃ e rest, r = e ++ '>' :: rest ∧ d = { ty := .member litArray, elem := some e } ∧
+      isMember e = true ∧ e ≠ litArray ∧ e ≠ litDecimal ∧ excludedElem e = false := by
+  have hu : upperInFromName = true := by decide
+  have hs := dropPrefix?_eq_some hp
+  have hs' : U.upper name = 'A' :: (['R', 'R', 'A', 'Y', '<'] ++ r) := by rw [hs]; rfl
+  unfold fromNameU at hok
+  simp only [hu, if_true] at hok
+  rw [hs', parseTypeU_A] at hok
+  cases hm : matchArrayU U ('A' :: (['R', 'R', 'A', 'Y', '<'] ++ r)) with
+  | some body =>
+    obtain ⟨rest, hs2⟩ := matchArrayU_eq_some hm
+    have hr : r = body ++ '>' :: rest := by
+      have : litArray ++ ['<'] ++ r = litArray ++ ['<'] ++ (body ++ '>' :: rest) := by
+        have h0 : litArray ++ ['<'] ++ r = 'A' :: (['R', 'R', 'A', 'Y', '<'] ++ r) := rfl
+        rw [h0, hs2]; simp
+      exact List.append_cancel_left this
+    simp only [hm] at hok
+    obtain ⟨hd, hmem, hx⟩ := arrayResolve_ok hok
+    refine ⟨body, rest, hr, hd, hmem, ?_, ?_, hx⟩
+    · rintro rfl; simp [excluded_array_decimal.1] at hx
+    · rintro rfl; simp [excluded_array_decimal.2] at hx
+  | none =>
+    exfalso
+    simp only [hm] at hok
+    have hlt : '<' ∈ U.upper ('A' :: (['R', 'R', 'A', 'Y', '<'] ++ r)) := hU.keeps_lt _ (by simp)
+    rw [bareResolve_of_lt hlt] at hok
+    cases hok
+
+theorem matchDecimalU_spec {U : Chars} (hU : U.Sane) (d1 ws d2 rest : Str) (h1 : d1 ≠ []) (h2 : d2 ≠ [])
+    (hd1 : ∀ c ∈ d1, U.isD c = true) (hd2 : ∀ c ∈ d2, U.isD c = true) (hws : ∀ c ∈ ws, U.isS c = true) :
+    matchDecimalU U (litDecimal ++ '(' :: (d1 ++ ',' :: (ws ++ (d2 ++ ')' :: rest)))) = some (d1, d2) := by
+  unfold matchDecimalU
+  have h : litDecimal ++ '(' :: (d1 ++ ',' :: (ws ++ (d2 ++ ')' :: rest)))
+      = (litDecimal ++ ['(']) ++ (d1 ++ ',' :: (ws ++ (d2 ++ ')' :: rest))) := by simp
+  rw [h, dropPrefix?_append]
+  simp only [takeWhile_run hd1 hU.comma, dropWhile_run hd1 hU.comma]
+  obtain ⟨a, as, rfl⟩ := List.exists_cons_of_ne_nil h1
+  obtain ⟨b, bs, rfl⟩ := List.exists_cons_of_ne_nil h2
+  have hb : U.isS b = false := hU.digit_not_space b (hd2 b List.mem_cons_self)
+  have hdrop : (ws ++ (b :: bs ++ ')' :: rest)).dropWhile U.isS = b :: bs ++ ')' :: rest := by
+    rw [List.cons_append]; exact dropWhile_run hws hb
+  simp only [hdrop, takeWhile_run hd2 hU.paren, dropWhile_run hd2 hU.paren]
+
+theorem fromNameU_decimal_rejected {U : Chars} (hU : U.Sane) {name d1 ws d2 rest : Str}
+    (hup : U.upper name = litDecimal ++ '(' :: (d1 ++ ',' :: (ws ++ (d2 ++ ')' :: rest))))
+    (h1 : d1 ≠ []) (h2 : d2 ≠ []) (hd1 : ∀ c ∈ d1, U.isD c = true) (hd2 : ∀ c ∈ d2, U.isD c = true)
+    (hws : ∀ c ∈ ws, U.isS c = true)
+    (hbad : ∀ p s, U.toInt d1 = .ok p → U.toInt d2 = .ok s → ¬ (s ≤ p ∧ p ≤ 38)) :
+    fromNameU U name = .error .valueError := by
+  have hu : upperInFromName = true := by decide
+  have hm := matchDecimalU_spec hU d1 ws d2 rest h1 h2 hd1 hd2 hws
+  have hup' : U.upper name = 'D' :: (['E', 'C', 'I', 'M', 'A', 'L'] ++ '(' :: (d1 ++ ',' :: (ws ++ (d2 ++ ')' :: rest)))) := by
+    rw [hup]; rfl
+  have hm' : matchDecimalU U ('D' :: (['E', 'C', 'I', 'M', 'A', 'L'] ++ '(' :: (d1 ++ ',' :: (ws ++ (d2 ++ ')' :: rest)))))
+      = some (d1, d2) := hm
+  unfold fromNameU
+  simp only [hu, if_true]
+  rw [hup', parseTypeU_D, hm']
+  cases hp : U.toInt d1 with
+  | error e =>
+    have := hU.int_err _ _ hp
+    subst this
+    simp [hp]
+  | ok p =>
+    cases hs : U.toInt d2 with
+    | error e =>
+      have := hU.int_err _ _ hs
+      subst this
+      simp [hp, hs]
+    | ok s =>
+      simp only [hp, hs, decimalBind_id]
+      exact decimalResolve_err (hbad p s hp hs)
 
 end TypeName
